@@ -87,3 +87,81 @@ package intdataplane
 //@ spec macro rmAfterUpdateRoutes(m *routeManager, msg *proto.RouteUpdate) bool =
 //@      ((msg.Dst in m.routesByDest) <==> rmKeepsRoute(m.ippoolType, msg.Types, msg.IpPoolType, msg.Borrowed))
 //@      && ((msg.Dst in m.routesByDest) ==> m.routesByDest[msg.Dst] == msg)
+
+//@ -- ---------------------------------------------------------------- C41: flow-offload exclusions
+//@ -- A workload must stay off the fast path iff it has DSCP (QoS policy) marking or a connection or
+//@ -- packet-rate limit (bandwidth limits run in tc and do not count).
+//@ spec macro wlNeedsHooks(wep *proto.WorkloadEndpoint) bool = wep != nil && (len(wep.QosPolicies) > 0 ||
+//@      (wep.QosControls != nil && (wep.QosControls.IngressMaxConnections != 0 || wep.QosControls.EgressMaxConnections != 0
+//@          || wep.QosControls.IngressPacketRate != 0 || wep.QosControls.EgressPacketRate != 0)))
+//@ func workloadNeedsForwardHooks
+//@   property C41
+//@   ensures res == wlNeedsHooks(wep)
+//@   assigns nothing
+
+//@ func stripSubnetMasks
+//@   property C41
+//@   ensures len(res) == len(addrs) && fresh(res)
+//@   ensures forall i int :: 0 <= i && i < len(addrs) ==> res[i] == strBefore(addrs[i], "/")
+//@   assigns nothing
+//@   loop 1 invariant -1 <= rangeindex && rangeindex < len(addrs) && len(ips) == rangeindex + 1 && fresh(ips) && len(ips) <= cap(ips)
+//@   loop 1 invariant forall j int :: 0 <= j && j <= rangeindex ==> ips[j] == strBefore(addrs[j], "/")
+
+//@ spec macro fxMapsOK(m *flowtableExclusionManager) bool = m != nil && m.wepIPs != nil && m.hepIPs != nil
+
+//@ func (*flowtableExclusionManager).removeWorkload
+//@   property C41
+//@   requires fxMapsOK(m)
+//@   ensures forall k types.WorkloadEndpointID :: ((k in m.wepIPs) <==> (k != id && old(k in m.wepIPs))) && (k != id ==> m.wepIPs[k] == old(m.wepIPs[k]))
+//@   ensures old(id in m.wepIPs) ==> m.dirty
+//@   ensures !old(id in m.wepIPs) ==> m.dirty == old(m.dirty)
+//@   ensures m.wepIPs == old(m.wepIPs) && m.hepIPs == old(m.hepIPs) && m.ipVersion == old(m.ipVersion)
+//@   assigns m.dirty, m.wepIPs[*]
+
+//@ func (*flowtableExclusionManager).removeHost
+//@   property C41
+//@   requires fxMapsOK(m)
+//@   ensures forall k types.HostEndpointID :: ((k in m.hepIPs) <==> (k != id && old(k in m.hepIPs))) && (k != id ==> m.hepIPs[k] == old(m.hepIPs[k]))
+//@   ensures old(id in m.hepIPs) ==> m.dirty
+//@   ensures !old(id in m.hepIPs) ==> m.dirty == old(m.dirty)
+//@   ensures m.wepIPs == old(m.wepIPs) && m.hepIPs == old(m.hepIPs) && m.ipVersion == old(m.ipVersion)
+//@   assigns m.dirty, m.hepIPs[*]
+
+//@ -- After any endpoint message, the exclusion table holds the endpoint's id exactly when the LATEST message
+//@ -- for it is an update that needs per-packet hooks (workload) / has QoS policies (host endpoint), mapped to
+//@ -- that update's addresses of this manager's IP family with the subnet masks stripped; every other id and
+//@ -- the other table are untouched; a change sets the dirty flag (so the IP set is rewritten).
+//@ spec macro fxWepNets(m *flowtableExclusionManager, ep *proto.WorkloadEndpoint) []string = m.ipVersion == 6 ? ep.Ipv6Nets : ep.Ipv4Nets
+//@ spec macro fxHepIPs(m *flowtableExclusionManager, ep *proto.HostEndpoint) []string = m.ipVersion == 6 ? ep.ExpectedIpv6Addrs : ep.ExpectedIpv4Addrs
+//@ spec macro fxStripped(got []string, want []string) bool = len(got) == len(want) && forall i int :: 0 <= i && i < len(want) ==> got[i] == strBefore(want[i], "/")
+//@ func (*flowtableExclusionManager).OnUpdate
+//@   property C41
+//@   requires fxMapsOK(m)
+//@   requires istype(protoBufMsg, *proto.WorkloadEndpointUpdate) ==> cast(protoBufMsg, *proto.WorkloadEndpointUpdate) != nil
+//@   requires istype(protoBufMsg, *proto.WorkloadEndpointRemove) ==> cast(protoBufMsg, *proto.WorkloadEndpointRemove) != nil
+//@   requires istype(protoBufMsg, *proto.HostEndpointUpdate) ==> cast(protoBufMsg, *proto.HostEndpointUpdate) != nil && cast(protoBufMsg, *proto.HostEndpointUpdate).Endpoint != nil
+//@   requires istype(protoBufMsg, *proto.HostEndpointRemove) ==> cast(protoBufMsg, *proto.HostEndpointRemove) != nil
+//@   ensures m.wepIPs == old(m.wepIPs) && m.hepIPs == old(m.hepIPs) && m.ipVersion == old(m.ipVersion)
+//@   ensures istype(protoBufMsg, *proto.WorkloadEndpointUpdate) ==>
+//@             ((wepIDOf(cast(protoBufMsg, *proto.WorkloadEndpointUpdate).Id) in m.wepIPs) <==> old(wlNeedsHooks(cast(protoBufMsg, *proto.WorkloadEndpointUpdate).Endpoint)))
+//@             && (old(wlNeedsHooks(cast(protoBufMsg, *proto.WorkloadEndpointUpdate).Endpoint)) ==> m.dirty
+//@                 && fxStripped(m.wepIPs[wepIDOf(cast(protoBufMsg, *proto.WorkloadEndpointUpdate).Id)], fxWepNets(m, cast(protoBufMsg, *proto.WorkloadEndpointUpdate).Endpoint)))
+//@   ensures istype(protoBufMsg, *proto.WorkloadEndpointRemove) ==> !(wepIDOf(cast(protoBufMsg, *proto.WorkloadEndpointRemove).Id) in m.wepIPs)
+//@   ensures istype(protoBufMsg, *proto.HostEndpointUpdate) ==>
+//@             ((hepIDOf(cast(protoBufMsg, *proto.HostEndpointUpdate).Id) in m.hepIPs) <==> len(cast(protoBufMsg, *proto.HostEndpointUpdate).Endpoint.QosPolicies) > 0)
+//@             && (len(cast(protoBufMsg, *proto.HostEndpointUpdate).Endpoint.QosPolicies) > 0 ==> m.dirty
+//@                 && fxStripped(m.hepIPs[hepIDOf(cast(protoBufMsg, *proto.HostEndpointUpdate).Id)], fxHepIPs(m, cast(protoBufMsg, *proto.HostEndpointUpdate).Endpoint)))
+//@   ensures istype(protoBufMsg, *proto.HostEndpointRemove) ==> !(hepIDOf(cast(protoBufMsg, *proto.HostEndpointRemove).Id) in m.hepIPs)
+//@   -- everything else is untouched, and a table that changed is flagged dirty
+//@   ensures forall k types.WorkloadEndpointID ::
+//@             !(istype(protoBufMsg, *proto.WorkloadEndpointUpdate) && k == wepIDOf(cast(protoBufMsg, *proto.WorkloadEndpointUpdate).Id))
+//@             && !(istype(protoBufMsg, *proto.WorkloadEndpointRemove) && k == wepIDOf(cast(protoBufMsg, *proto.WorkloadEndpointRemove).Id)) ==>
+//@             ((k in m.wepIPs) <==> old(k in m.wepIPs)) && m.wepIPs[k] == old(m.wepIPs[k])
+//@   ensures forall k types.HostEndpointID ::
+//@             !(istype(protoBufMsg, *proto.HostEndpointUpdate) && k == hepIDOf(cast(protoBufMsg, *proto.HostEndpointUpdate).Id))
+//@             && !(istype(protoBufMsg, *proto.HostEndpointRemove) && k == hepIDOf(cast(protoBufMsg, *proto.HostEndpointRemove).Id)) ==>
+//@             ((k in m.hepIPs) <==> old(k in m.hepIPs)) && m.hepIPs[k] == old(m.hepIPs[k])
+//@   ensures (exists k types.WorkloadEndpointID :: (k in m.wepIPs) != old(k in m.wepIPs)) ==> m.dirty
+//@   ensures (exists k types.HostEndpointID :: (k in m.hepIPs) != old(k in m.hepIPs)) ==> m.dirty
+//@   ensures old(m.dirty) ==> m.dirty
+//@   assigns m.dirty, m.wepIPs[*], m.hepIPs[*]
